@@ -20,8 +20,5 @@ META = {
 
 
 def run(ctx):
-    for r in (dt.r06_1, dt.r06_2, dt.r06_3, dt.r06_4, dt.r06_5, dt.r05_3, dt.r05_6, dt.r03_2, dt.r03_6):
-        try:
-            r(ctx)
-        except shared.AnchorMissing:
-            pass
+    import engine
+    engine.run_rules(ctx, [dt.r06_1, dt.r06_2, dt.r06_3, dt.r06_4, dt.r06_5, dt.r05_3, dt.r05_6, dt.r03_2, dt.r03_6])
